@@ -381,7 +381,9 @@ class IndentAndNameChecker(BaseChecker):
         def is_hex(s: str) -> bool:
             return re.search(r"^0x[0-9a-fA-F]+$", s) is not None
 
-        line = line[: line.index("#")] + "\n" if "#" in line else line
+        # a '#' inside a quoted string does not start a comment
+        unquoted = re.sub(r"\"[^\"]*\"|'[^']*'", lambda m: "_" * len(m.group()), line)
+        line = line[: unquoted.index("#")] + "\n" if "#" in unquoted else line
         line_with_symbols = self.reg_switch.match(line)
 
         if line_with_symbols:
